@@ -45,6 +45,7 @@ class Contract:
     e1: bool = True                                # False: run-time contract only (tier B function, bounded stand-in)
     runtime: bool = True                           # checked by the E2 wrappers
     gen: str | None = None                         # name of the E2 input generator
+    card_mono: list = field(default_factory=list)  # obligation clauses/sites that get monotonicity of card under inclusion (strict for proper inclusion)
 
 
 REGISTRY: dict = {}
